@@ -437,6 +437,14 @@ def _check_routing(prog: Program, res: Result):
         ds = [e for e in f_.events if e.kind == "DESIGN"]
         stored = [e for e in f_.events if e.kind == "STORE"]
         okd = len(ds) == 1 and len(stored) >= 1 and isinstance(ds[0].data[1].get("v_flow"), _R) and ds[0].data[1]["v_flow"].equals(_R.atom(sd.params()[1] if sd.params()[0] == "self" else sd.params()[0]))
+        if okd and "flow_type" not in ds[0].data[1]:
+            # the design class is given the flow number but not what it means: its default (per borehole) then applies whatever the caller said
+            res.ob("R20.5", f"set_design hands this call's flow type to {ds[0].data[0]}", False, prog.loc(sd, ds[0].node))
+            res.violation("R20.5", f"routing|set_design|flow_type-left-out|{ds[0].data[0]}", prog.loc(sd, ds[0].node), sd.qualname,
+                          f"{ds[0].data[0]}(...) is constructed without flow_type: the class default (a per-borehole flow) is used whatever the caller specified, so a system flow is searched as a per-borehole flow")
+            n_ok += 1
+            n_links += 1
+            continue
         if not okd and not ds:
             # an existing design object is kept: acceptable only if BOTH the flow number and the flow type are brought up to date
             ups = {e.data[0]: e.data[1] for e in f_.events if e.kind == "UPDATE"}
